@@ -7,8 +7,10 @@ COMMON_NOTE = (
     "re-read from the running interpreter. No axioms (Print Assumptions: closed under the global context). "
     "Streams ask each question through every public entry point and in variant forms (after other uses of the same text or "
     "of a twin of another country, through an instance, with components omitted, padded with white space), and each "
-    "property's stream is replayed in the opposite order in a fresh process; the bank list of the model is read from the "
-    "JSON files by the translator itself (the library's loader is compared with it)."
+    "property's stream is replayed in other circumstances (opposite order with a digest of all registries around it, "
+    "python -OO, first use of a fresh process from 8 threads, pairs under line-level interleavings asked again alone "
+    "afterwards); the bank list of the model is read from the JSON files by the translator itself (the library's loader "
+    "is compared with it)."
 )
 
 CLAIMS = {
